@@ -1,7 +1,9 @@
 package main
 
 import (
+	"context"
 	"encoding/json"
+	"os/exec"
 	"flag"
 	"fmt"
 	"os"
@@ -19,7 +21,11 @@ type Finding struct {
 	What       string `json:"what"`
 	Status     string `json:"status"` // finding | fixed
 	Commit     string `json:"commit,omitempty"`
-	Witness    string `json:"witness,omitempty"`
+	Witness    string `json:"witness,omitempty"`        // Go test file under /verif injected by overlay
+	WitnessPkg string `json:"witness_pkg,omitempty"`    // repository-relative package directory
+	WitnessRun string `json:"witness_run,omitempty"`    // -run pattern
+	WitnessExp string `json:"witness_expect,omitempty"` // substring printed when the defect shows on the real code
+	witnessOut string
 }
 
 type KnownFindings struct {
@@ -233,12 +239,26 @@ func cmdCheck(args []string) int {
 		}
 	}
 	var knownLines []string
+	witnessCache := map[string]string{}
 	for _, tw := range twins {
-		st := "re-refuted on this run"
+		st := "excepted case re-refuted by the solver on this run"
 		if tw.Status == "discharged" {
-			st = "NOT reproduced on this run (stale finding?)"
+			st = "excepted case now proved: the finding may be stale"
 		} else if tw.Status == "undecided" {
-			st = "excepted case undecided on this run"
+			st = "excepted case undecided by the solver on this run"
+		}
+		if f := tw.Finding; f.Witness != "" {
+			key := f.Witness + "|" + f.WitnessPkg + "|" + f.WitnessRun
+			out, ok := witnessCache[key]
+			if !ok {
+				out = runWitness(*repo, f)
+				witnessCache[key] = out
+			}
+			if strings.Contains(out, f.WitnessExp) && f.WitnessExp != "" {
+				st += "; witness history replayed on the real code: still fails"
+			} else {
+				st += "; witness history no longer fails on the real code"
+			}
 		}
 		knownLines = append(knownLines, fmt.Sprintf("KNOWN-FINDING: property=%s %s %s [%s]", *prop, tw.Finding.Obligation, tw.Finding.What, st))
 	}
@@ -283,6 +303,28 @@ func cmdCheck(args []string) int {
 	return 0
 }
 
+// runWitness runs a committed witness test against the real code (go test -overlay).
+func runWitness(repo string, f *Finding) string {
+	tmp, _ := os.MkdirTemp("", "govc-witness")
+	defer os.RemoveAll(tmp)
+	pkgDir := filepath.Join(repo, f.WitnessPkg)
+	src := f.Witness
+	if !filepath.IsAbs(src) {
+		src = filepath.Join("/verif", src)
+	}
+	ov := map[string]interface{}{"Replace": map[string]string{filepath.Join(pkgDir, "zz_verif_witness_test.go"): src}}
+	data, _ := json.Marshal(ov)
+	ovFile := filepath.Join(tmp, "ov.json")
+	os.WriteFile(ovFile, data, 0o644)
+	ctx, cancel := context.WithTimeout(context.Background(), 120*time.Second)
+	defer cancel()
+	cmd := exec.CommandContext(ctx, "go", "test", "-overlay", ovFile, "-vet=off", "-tags", "verif", "-count=1", "-v", "-timeout", "60s", "-run", f.WitnessRun, ".")
+	cmd.Dir = pkgDir
+	cmd.Env = append(os.Environ(), "GOFLAGS=-mod=mod", "GOPROXY=off", "GOSUMDB=off", "GOTOOLCHAIN=local")
+	out, _ := cmd.CombinedOutput()
+	return string(out)
+}
+
 // exceptTerm evaluates a known-finding exception predicate in the entry state of the obligation's function.
 func exceptTerm(g *Gen, results []*FuncResult, o *Obligation, except string) (string, error) {
 	e, err := ParseExpr(except)
@@ -298,9 +340,8 @@ func exceptTerm(g *Gen, results []*FuncResult, o *Obligation, except string) (st
 			if len(r.fe.bindErrs) > nerr {
 				return "", fmt.Errorf("%s", r.fe.bindErrs[len(r.fe.bindErrs)-1])
 			}
-			if len(r.fe.s.lines) != nl {
-				return "", fmt.Errorf("exception predicate must be a pure expression over parameters")
-			}
+			// well-typedness facts emitted while evaluating are dropped (they follow every obligation's prefix)
+			r.fe.s.lines = r.fe.s.lines[:nl]
 			return t, nil
 		}
 	}
